@@ -58,10 +58,19 @@ type World struct {
 	nextEnt int
 	clockN  int
 	bankInit []BankInit
+	fixStr   map[string]*Term // field name -> constant (e.g. Denom)
+	invs     []*TypeInv
+	bounds   map[string]int
+	checkInv bool
+}
+
+type TypeInv struct {
+	typ  types.Type
+	pred *FuncVal
 }
 
 func newWorld() *World {
-	return &World{stores: map[string]*StoreState{}}
+	return &World{stores: map[string]*StoreState{}, fixStr: map[string]*Term{}, bounds: map[string]int{}}
 }
 
 func (w *World) store(name string) *StoreState {
@@ -157,6 +166,7 @@ func (m *Machine) storeSet(store string, key, val *BytesVal) {
 	if n, ok := staticLen(key); ok && n == 0 {
 		m.goPanicf("store-empty-key", "key is nil or empty")
 	}
+	m.checkTypeInvOnWrite(val)
 	st := m.w.store(store)
 	st.log = append(st.log, LogEntry{key: key, val: val})
 }
@@ -177,6 +187,7 @@ func (m *Machine) materializeEntry(e *InitEntry, t types.Type) Value {
 	name := fmt.Sprintf("init%d.%s", e.id, shortType(t))
 	e.obj = m.materialize(t, name)
 	e.objType = t
+	m.assumeTypeInv(t, e.obj)
 	// keyed schema: the record's key fields agree with the key it is stored under
 	if sc := m.w.schemaFor(e.store, e.key); sc != nil && sc.keyFn != nil && e.enum == nil {
 		if types.Identical(types.Unalias(sc.typ), types.Unalias(t)) {
@@ -187,6 +198,30 @@ func (m *Machine) materializeEntry(e *InitEntry, t types.Type) Value {
 	return e.obj
 }
 
+// assumeTypeInv assumes the declared single-record invariant of type t on a materialised record.
+func (m *Machine) assumeTypeInv(t types.Type, obj Value) {
+	for _, ti := range m.w.invs {
+		if types.Identical(types.Unalias(ti.typ), types.Unalias(t)) {
+			r := m.callFunction(ti.pred.fn, []Value{obj}, ti.pred.caps, "inv")
+			m.assumeOrAbort(r.(*Term))
+		}
+	}
+}
+
+// checkTypeInvOnWrite asserts the declared invariant on a record that is being written.
+func (m *Machine) checkTypeInvOnWrite(val *BytesVal) {
+	if !m.w.checkInv || len(val.segs) != 1 || val.segs[0].k != SegTok || val.segs[0].tok.kind != "marshal" {
+		return
+	}
+	tok := val.segs[0].tok
+	for _, ti := range m.w.invs {
+		if types.Identical(types.Unalias(ti.typ), types.Unalias(tok.typ)) {
+			r := m.callFunction(ti.pred.fn, []Value{m.deepCopy(tok.val)}, ti.pred.caps, "inv")
+			m.assert("inv-preserved:"+shortType(tok.typ), r.(*Term), nil)
+		}
+	}
+}
+
 func (m *Machine) assumeOrAbort(c *Term) {
 	if c.IsConst() {
 		if !c.bv {
@@ -194,7 +229,7 @@ func (m *Machine) assumeOrAbort(c *Term) {
 		}
 		return
 	}
-	if m.feasible(c) == Unsat {
+	if !m.replaying() && m.feasible(c) == Unsat {
 		m.abort("assume", "schema assumption infeasible")
 	}
 	m.addPC(c)
@@ -305,6 +340,7 @@ func (m *Machine) enumerate(st *StoreState, prefix string) *Enum {
 		if sc != nil && sc.keyFn != nil {
 			e.objType = sc.typ
 			e.obj = m.materialize(sc.typ, fmt.Sprintf("init%d.%s", e.id, shortType(sc.typ)))
+			m.assumeTypeInv(sc.typ, e.obj)
 			e.key = m.applyKeyFn(sc, e.obj)
 		} else {
 			e.key = &BytesVal{segs: normSegs(append(litSegs(prefix), Seg{k: SegUF, t: m.freshStr(fmt.Sprintf("init%d.key", e.id))}))}
